@@ -42,6 +42,8 @@ def words_for(sch):
     w.insert(len(w) - 7, b"'a\nb")
     w.insert(len(w) - 7, b'""')
     w.insert(len(w) - 7, b'"a${U\n}b"')        # the braces of a substitution span a line
+    w.insert(len(w) - 7, b'${U:-d\ne}')         # ... outside quotes, in the default part
+    w.insert(len(w) - 7, b'"${V:-d\n\ne}"')
     if any(o.has('K') for o in sch.opts):
         w.insert(len(w) - 7, b'a|b')                 # inside a free-form section this is a key like any other
     secs = [o.name for o in sch.opts if o.kind == 'sec']
